@@ -10,14 +10,15 @@ MANIFEST = {
             "pairwise to the narrower precision (geometry is passed in the matching real type). (b) Complex data: coefficients and constants are "
             "Gaussian integers; Fem.tla evaluates the integrand in Q(i) with conjugation exactly where UFL's physical-space form has it (test function "
             "conjugated), including conj/real/imag of coefficients, complex constants and abs; the complex64/complex128 kernels must match real and "
-            "imaginary parts.",
+            "imaginary parts. Math functions (exp, ln, sin, cos, tan, sinh, cosh, tanh, atan, sqrt; real and complex arguments) enter as per-point "
+            "tables: libm/cmath applied by the harness to the exact rational argument, rounded to 2^-12, with that rounding added to the tolerance.",
     "design_ref": "DESIGN.md section 4 C09",
-    "note": "Trusted as in C01 plus UFL's complex-mode handling of inner/conj (the sesquilinear convention itself). Complex math functions other than "
-            "abs and integer powers are outside the exact model.",
+    "note": "Trusted as in C01 plus UFL's complex-mode handling of inner/conj (the sesquilinear convention itself) and Python's math/cmath "
+            "for function values (accuracy of libm is not at stake: the tolerance for function tables is 2^-12 relative to the magnitude).",
 }
 
 COMPLEX_OK = {"mass", "stiff", "coefmass", "xmass", "cten", "divdiv", "curlcurl", "mixeddiv", "load", "gradload",
-              "energy", "conv", "deriv", "tworules", "cplx", "xint"}
+              "energy", "conv", "deriv", "tworules", "cplx", "xint", "mathfn", "cmathfn"}
 
 
 def run(chk):
@@ -25,11 +26,12 @@ def run(chk):
     cases = s5.enumerate_formspace(chk, complex_terms=True)
     pool = [c for c in cases if c["term"] in COMPLEX_OK]
     sel = s5.sample_cases(pool, 14 if quick else 150, chk.seed, max_cost=25 if quick else 200)
-    cpl = s5.sample_cases([c for c in pool if c["term"] == "cplx"], 4 if quick else 40, chk.seed + 1, max_cost=25 if quick else 200)
+    cpl = s5.sample_cases([c for c in pool if c["term"] in ("cplx", "cmathfn")], 6 if quick else 60, chk.seed + 1, max_cost=25 if quick else 200)
+    cpl += s5.sample_cases([c for c in pool if c["term"] == "mathfn"], 3 if quick else 30, chk.seed + 2, max_cost=25 if quick else 200)
     items = []
     for i, c in enumerate(sel + cpl):
         seed = chk.seed * 100003 + i
-        for sc in (("complex64", "complex128") if c["term"] == "cplx" else ("float32", "float64", "complex64", "complex128")):
+        for sc in (("complex64", "complex128") if c["term"] in ("cplx", "cmathfn") else ("float32", "float64", "complex64", "complex128")):
             # the same seed -> the same geometry; real data for all four types
             items.append({"case": c, "seed": seed, "scalar": sc, "ninputs": 1 if quick else 2, "realdata": True,
                           "label": s5.case_label(c) + f"|{sc}|real"})
